@@ -91,6 +91,44 @@ def gen_macro_reuse(rng):
     return roots + blocks
 
 
+def gen_macro_attach(rng):
+    """a macro whose body is a run of PASTEs where a later one supplies children of the directive the
+    previous one ended with (a response code or a Request): the context after a PASTE is the last
+    pasted directive, inside a macro body just as at a call site written directly in the API"""
+    roots = [N("JSIGHT 0.3")]
+    # (a body directive without a body cannot be the last thing before the closing parenthesis of a
+    # macro, so the open directives carry their Headers already and the next PASTE brings the Body)
+    H = lambda k: N('Headers\n{"h%d": "v"}' % k)
+    tails = [[N("401 any"), N("404 any")], [N("Request any")], [N("201", [H(1)])], [N("Request", [H(2)])], [N("403 // forbidden", [H(3)])],
+             [N("Query \"q=1\"\n{\"q\": 1}"), N("Request", [H(4)])], [N("200 any"), N("Request any")]]
+    fills = [[N('Headers\n{"h": "v"}')], [N('Body\n{"b": 1}')], [N('Headers\n{"h": "v"}'), N("Body any")], [N("Body any")]]
+    t, f = rng.choice(tails), rng.choice(fills)
+    macros = [N("MACRO @tail", [copy_node(n) for n in t], explicit=True), N("MACRO @fill", [copy_node(n) for n in f], explicit=True)]
+    body = [N("PASTE @tail"), N("PASTE @fill")]
+    if rng.random() < 0.3:
+        macros.append(N("MACRO @fill2", [N("PASTE @fill")], explicit=True))
+        body = [N("PASTE @tail"), N("PASTE @fill2")]
+    if rng.random() < 0.3:
+        body.append(N("500 any"))
+    macros.append(N("MACRO @w", body, explicit=True))
+    top = "@w"
+    if rng.random() < 0.4:
+        macros.append(N("MACRO @outer", [N("PASTE @w")] + ([N("502 any")] if rng.random() < 0.5 else []), explicit=True))
+        top = "@outer"
+    uses = []
+    for j in range(rng.randint(1, 2)):
+        kids = ([N("200 any")] if rng.random() < 0.7 else []) + [N("PASTE " + top)]
+        if rng.random() < 0.3:
+            kids.append(N("503 any"))
+        uses.append(N("%s /w%d" % (rng.choice(["POST", "PUT", "PATCH"]), j), kids))
+    # the same pair written directly at a call site, for comparison
+    if rng.random() < 0.5:
+        uses.append(N("POST /direct", [N("200 any"), N("PASTE @tail"), N("PASTE @fill")]))
+    blocks = macros + uses
+    rng.shuffle(blocks)
+    return roots + blocks
+
+
 def copy_node(n):
     return N(n.text, [copy_node(c) for c in n.children], n.explicit)
 
@@ -147,6 +185,8 @@ def run(tier, out, model_ok, proof):
         docs.append(gen_macro_digraph(rng))
     for i in range(1500 if big else 200):
         docs.append(gen_macro_reuse(rng))
+    for i in range(600 if big else 100):
+        docs.append(gen_macro_attach(rng))
     # a chain declared BEFORE the cycle it leads into
     docs.append([N("JSIGHT 0.3"), N("MACRO @t", [N("PASTE @c1")], explicit=True), N("MACRO @c1", [N("PASTE @c2")], explicit=True),
                  N("MACRO @c2", [N("PASTE @c1")], explicit=True), N("GET /cats", [N("200 any"), N("PASTE @t")])])
@@ -213,7 +253,7 @@ def run(tier, out, model_ok, proof):
     out.coverage.update({
         "evaluations": len(cases),
         "distinct_nontrivial": sum(1 for _, r, _ in pairs if any(n.text.startswith("PASTE") for n in treecorr_flat(r))),
-        "rule": "structured valid documents with sibling runs abstracted into (nested, explicit-body) MACROs + hand-picked shapes (macro with ENUM/TYPE used 0/1/2 times, use before definition, undefined macro, cycles of length 1-3, cyclic but unused, a macro pasted twice by another, diamonds) + random acyclic macro graphs with reuse + arbitrary PASTE graphs (chains into cycles, any declaration order); each macro form is built and compared with its inlined form (reference inliner lib/meta.py) and its expanded forest / macro table / enum registrations are compared with the extracted Coq model; non-trivial = contains a PASTE",
+        "rule": "structured valid documents with sibling runs abstracted into (nested, explicit-body) MACROs + hand-picked shapes (macro with ENUM/TYPE used 0/1/2 times, use before definition, undefined macro, cycles of length 1-3, cyclic but unused, a macro pasted twice by another, diamonds) + random acyclic macro graphs with reuse + arbitrary PASTE graphs (chains into cycles, any declaration order) + macro bodies that are runs of PASTEs where a later one supplies the children of the directive the previous one ended with; each macro form is built and compared with its inlined form (reference inliner lib/meta.py) and its expanded forest / macro table / enum registrations are compared with the extracted Coq model; non-trivial = contains a PASTE",
         "samples": [bytes.fromhex(c["files"]["root.jst"]).decode("latin1")[:300] for c in cases[:2]],
         "traces_validated_against_impl": (len([c for c in cases if c["id"].startswith("m")]) - len(mism)) if model_ok else 0,
         "accepted_pairs": acc, "rejected": rej,
